@@ -250,6 +250,14 @@ func genSfCase(t *rapid.T) sfCase {
 }
 
 func checkSfCase(c sfCase, rec *Rec) error {
+	// the arguments live in arrays with spare capacity (as after a Remove): a result that is "append(a, ...)" would
+	// share a's array, and a second call would then overwrite the first result
+	spare := func(x []int) []int {
+		y := make([]int, len(x), len(x)+len(x)%3*4+(c.X&1)*8)
+		copy(y, x)
+		return y
+	}
+	c.A, c.B = spare(c.A), spare(c.B)
 	a0, b0 := append([]int{}, c.A...), append([]int{}, c.B...)
 	A, B := setOf(c.A), setOf(c.B)
 	untouched := func(fn string) error {
@@ -294,6 +302,13 @@ func checkSfCase(c sfCase, rec *Rec) error {
 		}
 		if err := untouched(f.name); err != nil {
 			return err
+		}
+		// a second call with the same first argument must not disturb the first result
+		keep := append([]int{}, got...)
+		_ = f.f(sortints.SortedInts(c.A), sortints.SortedInts([]int{1 << 40, 1<<40 + 1}))
+		_ = f.f(sortints.SortedInts(c.B), sortints.SortedInts([]int{1 << 41}))
+		if !eqInts(got, keep) {
+			return fmt.Errorf("%s(%v,%v): the result %v changed to %v when %s was called again with the same argument", f.name, a0, b0, keep, []int(got), f.name)
 		}
 		// the result is documented to be a new SortedInts: writing to it (also within its capacity) must not reach a or b
 		full := got[:cap(got)]
